@@ -21,6 +21,12 @@ CHECKS['C09'] = (T % ('stars of k=2..4 (thorough 5) spokes in every orientation 
          'Every description within the bound is solved and its report parsed.', 'report parser; end clustering from the statement', '3/C09')
 CHECKS['C16'] = (T % ('per axis 6 starts x 9 steps (non-representable decimals, negative) x counts (quick 16 values up to 100, thorough 1..100), 2-/3-axis combinations for counts<=4, the same for theta/phi, through the API and through main() with parsed report', 'start + i*step for i < count in the documented order'),
          'Every grid in the menu is requested from the real code; counts and coordinates compared exactly / to print precision.', '1-pulse model far from the grid keeps the cost per point ~1 ms', '3/C16')
+CHECKS['C07'] = (T % ('in-domain lattice structures x every single feed pulse, pairs/triples/quadruples of {first, junction, grounded, last, middle} pulses x all voltage vectors over a 6-value menu for k<=2 and a fixed strength-2 covering array for k=3,4 x 3 complex scale factors', 'superposition of separately solved single-source responses, scaled solutions, V/I and Re(VI*)/2 recomputed by the harness, parsed SOURCE DATA block'),
+         'Every (structure, position set, voltage vector) in the bound is solved; for k=3,4 the voltage vectors are a pairwise covering array, not the full product (stated bound).', 'single-source models are taken as the response to one source alone (a 0 V delta-gap source is a short)', '3/C07')
+CHECKS['C13'] = (T % ('equal wires (n 1..200), tapered wires (n x 5 lengths x 4 radii x 3 taper ends x 7 min/max forms), arcs (3 radii x 12 angle pairs x n), helices (4 sign combinations x 4 radius sets x 3 pitches x n) and all transformation sequences of depth <=2 (thorough 3) on wire/tapered wire/arc/helix through main()', 'reference segmentations written from the README (equal, arc, helix), the documented taper contract and the harness composition of transformations'),
+         'Every parameter combination in the menu is constructed with the real code; rejected (assert) and fall-back combinations are counted separately.', 'taper contract and arc/helix formulas as documented', '3/C13')
+CHECKS['C17'] = (T % ('3-object structures (1-segment wires owning a junction or ground pulse, stars, chains, grounded wires, arc+helix+wire) x wire orders x orientations x 5 tag assignments x every pulse in both addressing forms for a source and for a load, plus every all-of-object and all-of-antenna attachment', 'the printed geometry table as ground truth (identical impedances for both forms, listings name the pulse, junction pulse under the later tag, diagonal of Z shifted exactly once per pulse)'),
+         'Every pulse of every description in the bound is addressed through main() in both forms.', 'report parser; the geometry table is the reference by statement', '3/C17')
 NA = {}
 def main():
     src = subprocess.run(['git', '-C', '/repo', 'log', '--format=%H %s'], capture_output=True, text=True).stdout
